@@ -25,6 +25,8 @@ class Baton:
         self.switches = 0
         self.by_ident = {}
         self.armed = set()      # threads past their warm-up
+        self.blocked = set()    # threads waiting for a lock another one holds
+        self.lock_waits = 0
 
     def register(self, tid):
         self.by_ident[threading.get_ident()] = tid
@@ -43,12 +45,28 @@ class Baton:
             self.points[tid] += 1
             self.global_points += 1
             nxt = self.decide(tid, self.points[tid], self.global_points)
-            if nxt != tid and nxt in self.alive:
+            if nxt != tid and nxt in self.alive and nxt not in self.blocked:
                 self.turn = nxt
                 self.switches += 1
                 self.cond.notify_all()
                 if not self.cond.wait_for(lambda: self.turn == tid, timeout=self.timeout):
                     raise Deadlock(f'thread {tid} never got the baton back')
+
+    def blocked_yield(self, tid):
+        """the running thread cannot get a lock of the library: another
+        thread holds it (it was preempted inside the critical section).  The
+        baton goes to the others until the lock has been released."""
+        with self.cond:
+            others = [t for t in self.alive if t != tid and t not in self.blocked]
+            if not others:
+                raise Deadlock(f'thread {tid} waits for a lock nobody will release')
+            self.blocked.add(tid)
+            self.lock_waits += 1
+            self.turn = others[0]
+            self.cond.notify_all()
+            if not self.cond.wait_for(lambda: self.turn == tid, timeout=self.timeout):
+                raise Deadlock(f'thread {tid} never got the baton back (lock wait)')
+            self.blocked.discard(tid)
 
     def finish(self, tid):
         with self.cond:
@@ -56,6 +74,55 @@ class Baton:
             if self.alive and self.turn == tid:
                 self.turn = next(iter(self.alive))
             self.cond.notify_all()
+
+
+LOCK_TYPES = (type(threading.Lock()), type(threading.RLock()))
+
+
+class BatonLock:
+    """Stands in for a module level lock of the library while two threads run
+    under the baton: a thread which finds the lock taken hands the baton on
+    instead of blocking (the holder is paused and could never release it)."""
+
+    def __init__(self, real, baton):
+        self.real, self.baton = real, baton
+
+    def acquire(self, blocking=True, timeout=-1):
+        tid = self.baton.me()
+        if tid is None:
+            return self.real.acquire(blocking, timeout)
+        while not self.real.acquire(False):
+            if not blocking:
+                return False
+            self.baton.blocked_yield(tid)
+        return True
+
+    def release(self):
+        self.real.release()
+        with self.baton.cond:
+            self.baton.blocked.clear()
+
+    def __enter__(self):
+        return self.acquire()
+
+    def __exit__(self, *exc):
+        self.release()
+
+    def __getattr__(self, name):
+        return getattr(self.real, name)
+
+
+def wrap_locks(baton):
+    """replace every module level lock of the pycel package; returns the undo list"""
+    undo = []
+    for name, mod in list(sys.modules.items()):
+        if mod is None or not (name == 'pycel' or name.startswith('pycel.')):
+            continue
+        for attr, obj in list(vars(mod).items()):
+            if isinstance(obj, LOCK_TYPES):
+                setattr(mod, attr, BatonLock(obj, baton))
+                undo.append((mod, attr, obj))
+    return undo
 
 
 def run_pair(work1, work2, decide, observe, first=1, call_points=False):
@@ -103,6 +170,7 @@ def run_pair(work1, work2, decide, observe, first=1, call_points=False):
             baton.finish(tid)
 
     prev = _verif.set_sink(sink)
+    undo = wrap_locks(baton)
     try:
         ts = [threading.Thread(target=runner, args=(1, work1)),
               threading.Thread(target=runner, args=(2, work2))]
@@ -114,6 +182,8 @@ def run_pair(work1, work2, decide, observe, first=1, call_points=False):
                 raise Deadlock('thread did not finish')
     finally:
         _verif.set_sink(prev)
+        for mod, attr, obj in undo:
+            setattr(mod, attr, obj)
     return results, baton
 
 
